@@ -169,3 +169,38 @@ package period
 //@ func NewDayFromDate
 //@ requires isdate(d)
 //@ ensures result.date == d
+
+// ---------------------------------------------------------------------------------------------
+// constructors from pattern strings: a string of the period's shape that names an existing period denotes exactly
+// that period; every other string - month 13, quarter 5, a week number the year does not have - is rejected.
+
+//@ func NewYearFromString
+//@ let m = matches(yearPattern, yyyy)
+//@ ensures (result1 == nil) == m
+//@ ensures implies(m, isdate(result0.date) && dy(result0.date) == num(yyyy) && dm(result0.date) == 1 && dd(result0.date) == 1)
+
+//@ func NewMonthFromString
+//@ let m = matches(monthPattern, yyyymm)
+//@ let mo = num(yyyymm[5:7])
+//@ ensures (result1 == nil) == (m && 1 <= mo && mo <= 12)
+//@ ensures implies(result1 == nil, isdate(result0.date) && dy(result0.date) == num(yyyymm[0:4]) && dm(result0.date) == mo && dd(result0.date) == 1)
+
+//@ func NewQuarterFromString
+//@ let m = matches(quarterPattern, yyyyQq)
+//@ let q = num(yyyyQq[6:7])
+//@ ensures (result1 == nil) == (m && 1 <= q && q <= 4)
+//@ ensures implies(result1 == nil, isdate(result0.date) && dy(result0.date) == num(yyyyQq[0:4]) && qof(dm(result0.date)) == q)
+
+// Weeks: a year has as many ISO weeks as the week number of its 28th of December says. An accepted pattern denotes
+// the Monday of exactly that ISO week of exactly that ISO year.
+//@ func NewWeekFromString
+//@ let m = matches(weekPattern, yyyyWww)
+//@ let y = num(yyyyWww[0:4])
+//@ let w = num(yyyyWww[6:len(yyyyWww)])
+//@ ensures (result1 == nil) == (m && 1 <= w && w <= klog.isoweek(dn(y, 12, 28)))
+//@ ensures implies(result1 == nil, isdate(result0.date) && klog.isoweek(klog.ddn(result0.date)) == w && klog.isoyear(klog.ddn(result0.date)) == y && wk(klog.ddn(result0.date)) == 0)
+
+//@ func NewWeekFromString$1
+//@ inline
+//@ loop 1 invariant isdate(ref) && klog.ddn(ref) <= dn(year, 7, 1) && dn(year, 7, 1) - klog.ddn(ref) <= 6 && wk(klog.ddn(ref)) == wk(dn(year, 7, 1)) - (dn(year, 7, 1) - klog.ddn(ref))
+//@ loop 1 decreases wk(klog.ddn(ref))
